@@ -434,6 +434,7 @@ impl<'a> Ctx<'a> {
         self.h.items.push(format!("ICall ({}) {}", target.coq(sender), cf::boolean(ok)));
         let kind = target.kind();
         self.count(&format!("{}:{}", kind, if ok { "ok" } else { "revert" }));
+        if ok { if let Some(m) = target.mv(sender) { if !m.3.is_zero() { self.count(&format!("{}:ok_moving_tokens", kind)); } } }
         // ---- the property, on the implementation alone ----
         if ok && target.only_owner() {
             self.fail(format!("a user's call of the onlyOwner function {} succeeded", kind), json!({"call": what}));
@@ -728,16 +729,49 @@ impl<'a> Ctx<'a> {
         }
     }
 
+    fn via_of(&mut self, a: Address) -> Option<Via> {
+        if let Some(i) = self.pk_addr.iter().position(|x| *x == a) { return Some(Via::Pk(i)); }
+        for i in 0..sim::SIGNERS { if sim::signer_address(i) == a { return Some(Via::Signer(i)); } }
+        if let Some(i) = self.tools.iter().position(|x| *x == a) { return Some(Via::Tool { tool: i, pk: self.rng.below(PKS.len() as u64) as usize }); }
+        None
+    }
+
+    /// someone the harness can send as who holds something: (ticker key, how to send as them)
+    fn holder_via(&mut self) -> Option<(Vec<u8>, Via)> {
+        let mut hs: Vec<(Vec<u8>, Address)> = self.rf.bal.iter().filter(|(_, v)| !v.is_zero()).map(|((k, a), _)| (k.clone(), *a)).collect();
+        hs.sort();
+        let people = self.people();
+        hs.retain(|(_, a)| people.contains(a));
+        if hs.is_empty() { return None; }
+        let (k, a) = hs[self.rng.below(hs.len() as u64) as usize].clone();
+        self.via_of(a).map(|v| (k, v))
+    }
+
+    /// someone who approved `sender` for ticker `key` (so that a transferFrom can succeed)
+    fn approver_of(&mut self, key: &[u8], sender: Address) -> Option<Address> {
+        let v: Vec<Address> = self.rf.pairs.iter().filter(|(k, _, s)| k == key && *s == sender).map(|(_, o, _)| *o).collect();
+        if v.is_empty() { None } else { Some(v[self.rng.below(v.len() as u64) as usize]) }
+    }
+
     fn gen_user_call(&mut self) {
-        let via = self.pick_via();
+        let (via, pref_key) = match if self.rng.chance(11, 20) { self.holder_via() } else { None } {
+            Some((k, v)) => (v, Some(k)),
+            None => (self.pick_via(), None),
+        };
         let sender = self.via_addr(via);
         let on_tok = !self.rf.tokens.is_empty() && self.rng.chance(45, 100);
         let people = self.people();
         // whose money: mostly someone who has some
         let target = if on_tok {
             let toks: Vec<(Vec<u8>, Address)> = self.rf.tokens.iter().map(|(k, a)| (k.clone(), *a)).collect();
-            let (key, at) = toks[self.rng.below(toks.len() as u64) as usize].clone();
-            let from = if self.rng.chance(1, 2) { sender } else { people[self.rng.below(people.len() as u64) as usize] };
+            let (key, at) = match pref_key.as_ref().and_then(|k| self.rf.tokens.get(k).map(|a| (k.clone(), *a))) {
+                Some(x) if self.rng.chance(9, 10) => x,
+                _ => toks[self.rng.below(toks.len() as u64) as usize].clone(),
+            };
+            let from = match self.approver_of(&key, sender) {
+                Some(o) if self.rng.chance(1, 2) => o,
+                _ => if self.rng.chance(1, 2) { sender } else { people[self.rng.below(people.len() as u64) as usize] },
+            };
             let f = match self.rng.below(100) {
                 0..=24 => { let v = self.pick_value(self.rf.bal(&key, sender)); TFn::Transfer { to: self.pick_addr(sender), v } }
                 25..=39 => { let v = self.pick_value(self.rf.bal(&key, sender)); let sp = if self.rng.chance(1, 4) { self.ctl } else { self.pick_addr(sender) }; TFn::Approve { sp, v } }
@@ -752,8 +786,12 @@ impl<'a> Ctx<'a> {
             };
             Target::Tok { key, at, f }
         } else {
-            let t = self.pick_key();
-            let from = if self.rng.chance(11, 20) { sender } else { people[self.rng.below(people.len() as u64) as usize] };
+            let t = match pref_key { Some(k) if self.rng.chance(9, 10) => k, _ => self.pick_key() };
+            // for the controller's transferFrom the spender is the sender; for its transfer it is the controller itself
+            let from = match self.approver_of(&t, sender) {
+                Some(o) if self.rng.chance(1, 2) => o,
+                _ => if self.rng.chance(11, 20) { sender } else { people[self.rng.below(people.len() as u64) as usize] },
+            };
             let f = match self.rng.below(100) {
                 0..=23 => { let v = self.pick_value(self.rf.bal(&t, sender)); CFn::Transfer { t, to: self.pick_addr(sender), v } }
                 24..=43 => { let v = self.pick_value(self.rf.bal(&t, sender)); let sp = if self.rng.chance(2, 5) { self.ctl } else { self.pick_addr(sender) }; CFn::Approve { t, sp, v } }
@@ -926,9 +964,106 @@ fn run_history(id: u64, rng: &mut Rng, blocks: u64) -> (Hist, Address, Address) 
     (c.h, ctl, indexer)
 }
 
-fn case_term(h: &Hist, ctl: Address, indexer: Address, addrs: &[Address]) -> String {
-    format!("{{| lc_id := {}; lc_indexer := {}; lc_ctl := {}; lc_addrs := {};\n   lc_items := {} |}}",
-        h.id, cn(indexer), cn(ctl), cf::list(addrs, |a| cn(*a)), cf::list(&h.items, |s| format!("\n    {}", s)))
+/// The one functional defect found: BRC20_Controller.transfer spends the allowance the holder
+/// gave to the controller's own address.  Minimal history on a fresh engine.
+fn directed_controller_transfer() -> Option<Value> {
+    let mut run = Run::new();
+    let indexer: Address = *brc20_prog::verif_hooks::INDEXER_ADDRESS;
+    let ctl = indexer.create(0);
+    let ts = 1_700_000_000u64;
+    let (a0, a1) = (sim::pkscript_address(PKS[0]), sim::pkscript_address(PKS[1]));
+    let mut n = 0;
+    let mut call = |run: &mut Run, f: CFn| -> Option<bool> {
+        n += 1;
+        let tail = Tail { ts: ts + 600, hash: Hx::zero32(), tx_idx: Idx::Auto, insc_id: format!("dir{}i0", n), byte_len: 4000, op_return_tx_id: Hx::zero32() };
+        let out = run.step(&Op::Call { from_pkscript: PKS[0].into(), to: To::ByAddress(Hx::addr(ctl)), data: Hx(f.calldata()), enc: Enc::Hex, tail }).clone();
+        receipt_status(&out.result)
+    };
+    run.step(&Op::Initialise { hash: Hx::zero32(), ts, height: 0 });
+    let d = run.step(&Op::Deposit { to_pkscript: PKS[0].into(), ticker: "ORDI".into(), amount: "100".into(), ts: ts + 600, hash: Hx::zero32(), tx_idx: Idx::Auto, insc_id: "dir0i0".into() }).clone();
+    if receipt_status(&d.result) != Some(true) { return None; }
+    let t = b"ordi".to_vec();
+    let s1 = call(&mut run, CFn::Transfer { t: t.clone(), to: a1, v: U256::from(10) });
+    let s2 = call(&mut run, CFn::Approve { t: t.clone(), sp: ctl, v: U256::from(25) });
+    let s3 = call(&mut run, CFn::Transfer { t: t.clone(), to: a1, v: U256::from(10) });
+    run.step(&Op::Finalise { ts: ts + 600, hash: Hx::zero32(), tx_count: Idx::Auto });
+    let b0 = run.step(&Op::Balance { pkscript: PKS[0].into(), ticker: "ordi".into() }).result.clone();
+    let b1 = run.step(&Op::Balance { pkscript: PKS[1].into(), ticker: "ordi".into() }).result.clone();
+    if s1 == Some(false) {
+        Some(json!({
+            "what": "finding: BRC20_Controller.transfer(ticker, to, value) within the sender's balance reverts unless the sender has approved the controller's own address (it calls the token's 3-argument transferFrom, whose spender is the controller)",
+            "case": {"history": [
+                "brc20_initialise", "brc20_deposit(pk0, \"ORDI\", 100) -> status 1",
+                format!("brc20_call(pk0 -> controller.transfer(\"ordi\", {}, 10)) -> status {:?}", a1, s1),
+                format!("brc20_call(pk0 -> controller.approve(\"ordi\", {} = the controller, 25)) -> status {:?}", ctl, s2),
+                format!("brc20_call(pk0 -> controller.transfer(\"ordi\", {}, 10)) -> status {:?}", a1, s3),
+                "brc20_finaliseBlock", format!("brc20_balance(pk0, ordi) = {}, brc20_balance(pk1, ordi) = {}", b0, b1)],
+                "sender": a0.to_string()}
+        }))
+    } else { None }
+}
+
+/// Long numerals and byte lists repeat a lot (addresses, 2^256-1, tickers) and dominate the time
+/// Coq needs to read a case file: they are named once in the prelude of the file.
+#[derive(Default)]
+struct Intern { nums: BTreeMap<String, usize>, lists: BTreeMap<String, usize> }
+impl Intern {
+    fn squeeze(&mut self, s: &str) -> String {
+        // 1. byte lists: '[' digits ';' ' ' ']' with at least one digit
+        let b = s.as_bytes();
+        let mut out = String::with_capacity(s.len());
+        let mut i = 0;
+        while i < b.len() {
+            if b[i] == b'[' {
+                let mut j = i + 1;
+                let mut digits = false;
+                while j < b.len() && (b[j].is_ascii_digit() || b[j] == b';' || b[j] == b' ') { digits |= b[j].is_ascii_digit(); j += 1; }
+                if j < b.len() && b[j] == b']' && digits {
+                    let n = self.lists.len();
+                    let id = *self.lists.entry(s[i..=j].to_string()).or_insert(n);
+                    out.push_str(&format!("b{}", id));
+                    i = j + 1;
+                    continue;
+                }
+            }
+            out.push(b[i] as char);
+            i += 1;
+        }
+        // 2. numerals of 10 digits or more
+        let b = out.as_bytes();
+        let mut out2 = String::with_capacity(out.len());
+        let mut i = 0;
+        while i < b.len() {
+            if b[i].is_ascii_digit() && (i == 0 || !(b[i - 1].is_ascii_alphanumeric() || b[i - 1] == b'_')) {
+                let mut j = i;
+                while j < b.len() && b[j].is_ascii_digit() { j += 1; }
+                if j - i >= 10 {
+                    let n = self.nums.len();
+                    let id = *self.nums.entry(out[i..j].to_string()).or_insert(n);
+                    out2.push_str(&format!("n{}", id));
+                } else { out2.push_str(&out[i..j]); }
+                i = j;
+                continue;
+            }
+            out2.push(b[i] as char);
+            i += 1;
+        }
+        out2
+    }
+    fn prelude(&self) -> String {
+        let mut s = String::from("Open Scope N_scope.\n");
+        let mut ls: Vec<(&String, &usize)> = self.lists.iter().collect(); ls.sort_by_key(|x| *x.1);
+        for (l, i) in ls { s.push_str(&format!("Definition b{} : list N := {}.\n", i, l)); }
+        let mut ns: Vec<(&String, &usize)> = self.nums.iter().collect(); ns.sort_by_key(|x| *x.1);
+        for (n, i) in ns { s.push_str(&format!("Definition n{} : N := {}.\n", i, n)); }
+        s
+    }
+}
+
+fn case_term(h: &Hist, ctl: Address, indexer: Address, addrs: &[Address], it: &mut Intern) -> String {
+    let t = format!("{{| lc_id := {}; lc_indexer := {}; lc_ctl := {}; lc_addrs := {};\n   lc_items := {} |}}",
+        h.id, cn(indexer), cn(ctl), cf::list(addrs, |a| cn(*a)), cf::list(&h.items, |s| format!("\n    {}", s)));
+    it.squeeze(&t)
 }
 
 pub fn run(out: &Path, seed: u64, thorough: bool) -> Result<(), Box<dyn std::error::Error>> {
@@ -938,6 +1073,7 @@ pub fn run(out: &Path, seed: u64, thorough: bool) -> Result<(), Box<dyn std::err
     let ctl = brc20_prog::verif_hooks::INDEXER_ADDRESS.create(0);
     let addrs: Vec<Address> = (1..=48u64).map(|n| ctl.create(n)).collect();
     let mut terms = Vec::new();
+    let mut intern = Intern::default();
     let mut jsonl = String::new();
     let mut failures: Vec<Value> = Vec::new();
     let mut counters: BTreeMap<String, u64> = BTreeMap::new();
@@ -956,12 +1092,13 @@ pub fn run(out: &Path, seed: u64, thorough: bool) -> Result<(), Box<dyn std::err
         }
         failures.extend(h.failures.iter().cloned());
         if h.items.len() >= 2 { distinct.insert(h.items.join(";")); }
-        terms.push(case_term(&h, c, ix, &addrs));
+        terms.push(case_term(&h, c, ix, &addrs, &mut intern));
         jsonl.push_str(&json!({"id": h.id, "items": h.items, "log": h.log}).to_string()); jsonl.push('\n');
         if samples.len() < 2 { samples.push(json!({"id": h.id, "first_items": h.items.iter().take(25).collect::<Vec<_>>(), "log_head": h.log.iter().take(25).collect::<Vec<_>>()})); }
     }
-    let imports = "From Brc.Model Require Import Base Ledger Tie07.";
-    let files = cf::write_shards(out, "c07_l", imports, "lcase", "bad_lcases", &terms, 16)?;
+    if let Some(f) = directed_controller_transfer() { failures.push(f); }
+    let imports = format!("From Brc.Model Require Import Base Ledger Tie07.\n{}", intern.prelude());
+    let files = cf::write_shards(out, "c07_l", &imports, "lcase", "bad_lcases", &terms, if thorough { 32 } else { 16 })?;
     std::fs::write(out.join("c07_cases.jsonl"), jsonl)?;
     let meta = json!({
         "files": files,
